@@ -21,7 +21,8 @@ META = {
         'one to a given position, before the insert; (D5) the delegating one-liners (__setitem__, __delitem__, '
         '__iter__, __len__, __getitem__, at, value_at, index, reverse, sort, pop_at, MetadataObject.append/extend) '
         'have their documented normal forms; only SortableDict writes _order/_values.  Also (D5): sort/reverse may be written as a rebuild of _order from the CURRENT order (value-dict insertion order is a violation); MetadataObject.extend traverses its argument once (one-shot iterables).  Also (D5): overridden MutableMapping methods (items/keys/values) pair each key of _order with its own value; sort with an explicit signature passes key and reverse to list.sort (sort-then-reverse is not the stable descending sort).  Not decided: lock-step '
-        'equality with a reference ordered map as an execution.'),
+        'equality with a reference ordered map as an execution.'
+        " Also (D5): every way out of index() is the list's own index() or a raise (add_item relies on its ValueError to refuse an unknown pos_key)."),
     'rule_text': 'obligations = paths of add_item x applicable facts, delegation normal forms, who-may-write sites',
     'trusted_base': ['list.insert/append/remove/index and dict semantics; MutableMapping mixin methods reduce to the '
                      'five primitives (spec/mixins.json)'],
@@ -504,6 +505,27 @@ def _delegations(ctx, m, meths):
                                   'sort(reverse=True) is implemented as sort() followed by reverse(), which is not the stable '
                                   'descending sort of the reference model', file=F, line=revs[0].lineno, engine='E9')
                     continue
+        if got is None and name == 'index':
+            # add_item turns the ValueError of index(<absent key>) into its KeyError refusal: every way out of index()
+            # must be the list's own index() (which raises) or a raise -- a path that answers a default for an absent
+            # key lets add_item(pos_key=<absent>) go on and change the map
+            rets = [r for r in walk_no_nested(fn) if isinstance(r, ast.Return)]
+            soft = [r for r in rets if not (isinstance(r.value, ast.Call) and norm(r.value.func) == 'self._order.index')]
+            relies = any(isinstance(t_, ast.Try) and any(norm(c.func) == 'self.index' for x in t_.body for c in ast.walk(x)
+                                                        if isinstance(c, ast.Call))
+                         and any(h.type is not None and 'ValueError' in norm(h.type) for h in t_.handlers)
+                         for t_ in ast.walk(meths['add_item'])) if 'add_item' in meths else False
+            if rets and soft and relies:
+                r0 = soft[0]
+                ctx.violation('C16.D5', '%s::SortableDict.index' % F, norm(r0),
+                              "m = SortableDict over a, b; m.add_item('a', 1, pos_key='zz') (zz absent) must be refused with KeyError "
+                              "and change nothing; index('zz') answers `%s` instead of raising ValueError, the handler in add_item "
+                              "never runs, and the call goes on to overwrite a" % norm(r0.value)[:40],
+                              'SortableDict.index has a way out that is neither self._order.index(...) nor a raise; add_item relies '
+                              'on its ValueError to refuse an unknown pos_key', file=F, line=r0.lineno, engine='E9')
+                continue
+            if rets and not soft:
+                got = forms[0]
         if got is None:
             ctx.error('C16.D5', 'SortableDict.%s is no longer a one-expression method' % name)
             continue
@@ -642,11 +664,11 @@ def _delegations(ctx, m, meths):
             elif isinstance(x, ast.Call) and norm(x.func) in ('len', 'sorted', 'any', 'all', 'sum', 'max', 'min', 'dict', 'set') \
                     and x.args and norm(x.args[0]) == ip:
                 sites.append(x)
-        sites.sort(key=lambda z: (z.lineno, z.col_offset))
+        sites.sort(key=lambda z: z._seq)
         body = body_wo_doc(ex)
         material = [st for st in body if isinstance(st, ast.Assign) and norm(st.targets[0]) == ip
                     and norm(st.value) in ('list(%s)' % ip, 'tuple(%s)' % ip)]
-        if len(sites) >= 2 and not (material and material[0].lineno < sites[0].lineno):
+        if len(sites) >= 2 and not (material and material[0]._seq < sites[0]._seq):
             second = sites[1]
             ctx.violation('C16.D5', '%s::MetadataObject.extend' % FM, 'second traversal of `%s` at line %d (first at line %d)'
                           % (ip, second.lineno, sites[0].lineno),
